@@ -213,7 +213,7 @@ func TestRandomTrees(t *testing.T) {
 }
 
 func TestReplay(t *testing.T) {
-	if ev.ReplayPath() == "" {
+	if ev.ReplayPath() == "" || ev.ReplayPart() == "file-changes-while-hashed" {
 		t.Skip()
 	}
 	var c Case
